@@ -60,6 +60,19 @@ def coq_check(pid, extra_targets=()):
         res['failed'].append('unexpected axioms: ' + '; '.join(res['assumptions']))
     return res
 
+def coqchk_recheck(pid, cq):
+    """thorough tier: the independent checker re-checks the compiled property file and everything it depends on and prints the
+    axioms they rely on (expected: none)"""
+    d = os.path.join(VERIF, 'coq')
+    r = sh('timeout 3000 coqchk -o -silent -Q theories CMP -Q gen CMPGen CMP.Properties_%s' % pid, cwd=d, timeout=3100)
+    out = r.stdout + r.stderr
+    m = re.search(r'\* Axioms:\s*(.*?)\n\s*\n', out, re.S)
+    ax = ' '.join(m.group(1).split()) if m else 'coqchk output not understood'
+    cq['coqchk'] = 'coqchk -o CMP.Properties_%s: rc=%d, Axioms: %s' % (pid, r.returncode, ax)
+    cq['assumptions'] = list(cq['assumptions']) + [cq['coqchk']]
+    if r.returncode != 0 or ax != '<none>':
+        cq['failed'].append('coqchk re-check: ' + cq['coqchk'] + ' ' + out[-600:])
+
 def failing_generated_labels(pid):
     """names of the generated obligations (tie T) that no longer check; evaluated in Coq from the definitions the theorems use"""
     q = {'C11': 'Refine.failing_labels', 'C12': 'Refine.failing_labels'}.get(pid)
